@@ -67,9 +67,27 @@ enum Tgt {
 	/// path relative to the directory it lies in … i.e. by name, as if it were inside)
 	Plain { outside: bool, file: u16, drop_ext: bool, as_dir: u8 },
 	/// go `down` directories into the root, then `ups` times up, then to a known file
-	Climb { down: u8, ups: u8, outside: bool, file: u16, dots: u8, sep: u8 },
-	/// `slashes` slashes followed by the absolute path of a known file
-	Abs { outside: bool, file: u16, slashes: u8, lead: u8 },
+	/// (`as_dir`: 0 the file itself, 1 the directory holding it without / 2 with a trailing slash —
+	/// every canary directory holds an `index.html`)
+	Climb {
+		down: u8,
+		ups: u8,
+		outside: bool,
+		file: u16,
+		dots: u8,
+		sep: u8,
+		#[serde(default)]
+		as_dir: u8,
+	},
+	/// `slashes` slashes followed by the absolute path of a known file (or its directory, see `as_dir`)
+	Abs {
+		outside: bool,
+		file: u16,
+		slashes: u8,
+		lead: u8,
+		#[serde(default)]
+		as_dir: u8,
+	},
 	Segs(Vec<Seg>, bool),
 }
 
@@ -110,12 +128,25 @@ fn seg() -> impl Strategy<Value = Seg> {
 	]
 }
 
+fn as_dir() -> impl Strategy<Value = u8> {
+	prop_oneof![5 => Just(0u8), 3 => Just(1u8), 2 => Just(2u8)]
+}
+
+/// the path of a known file, or of the directory holding it
+fn file_or_dir(path: &str, as_dir: u8) -> String {
+	match (as_dir % 3, path.rsplit_once('/')) {
+		(1, Some((d, _))) => d.to_string(),
+		(2, Some((d, _))) => format!("{d}/"),
+		_ => path.to_string(),
+	}
+}
+
 fn tgt() -> impl Strategy<Value = Tgt> {
 	prop_oneof![
 		3 => (any::<bool>(), any::<u16>(), any::<bool>(), 0u8..3).prop_map(|(outside, file, drop_ext, as_dir)| Tgt::Plain { outside, file, drop_ext, as_dir }),
-		8 => (0u8..4, 1u8..5, prop::bool::weighted(0.7), any::<u16>(), prop_oneof![6 => Just(0u8), 4 => 1u8..DOTS.len() as u8], prop_oneof![4 => Just(0u8), 1 => Just(1u8), 1 => Just(2u8)])
-			.prop_map(|(down, ups, outside, file, dots, sep)| Tgt::Climb { down, ups, outside, file, dots, sep }),
-		4 => (prop::bool::weighted(0.7), any::<u16>(), 2u8..5, 0u8..3).prop_map(|(outside, file, slashes, lead)| Tgt::Abs { outside, file, slashes, lead }),
+		8 => (0u8..4, 1u8..5, prop::bool::weighted(0.7), any::<u16>(), prop_oneof![6 => Just(0u8), 4 => 1u8..DOTS.len() as u8], prop_oneof![4 => Just(0u8), 1 => Just(1u8), 1 => Just(2u8)], as_dir())
+			.prop_map(|(down, ups, outside, file, dots, sep, as_dir)| Tgt::Climb { down, ups, outside, file, dots, sep, as_dir }),
+		5 => (prop::bool::weighted(0.7), any::<u16>(), 2u8..5, 0u8..3, as_dir()).prop_map(|(outside, file, slashes, lead, as_dir)| Tgt::Abs { outside, file, slashes, lead, as_dir }),
 		6 => (vec(seg(), 1..7), any::<bool>()).prop_map(|(s, t)| Tgt::Segs(s, t)),
 	]
 }
@@ -362,7 +393,7 @@ fn expand(w: &World, t: &Tgt) -> String {
 				},
 			}
 		}
-		Tgt::Climb { down, ups, outside, file, dots, sep } => {
+		Tgt::Climb { down, ups, outside, file, dots, sep, as_dir } => {
 			let k = known(*outside, *file);
 			let chain = ["sub", "deep", "er"];
 			let down = (*down as usize).min(chain.len());
@@ -383,17 +414,17 @@ fn expand(w: &World, t: &Tgt) -> String {
 			let target = split_abs(&k.abs);
 			let rel: Vec<String> = if target.len() > cur.len() && target[..cur.len()] == cur[..] { target[cur.len()..].to_vec() } else { vec![target.last().cloned().unwrap_or_default()] };
 			out.push_str(sep);
-			out.push_str(&rel.join("/"));
+			out.push_str(&file_or_dir(&rel.join("/"), if rel.len() > 1 { *as_dir } else { 0 }));
 			out
 		}
-		Tgt::Abs { outside, file, slashes, lead } => {
+		Tgt::Abs { outside, file, slashes, lead, as_dir } => {
 			let k = known(*outside, *file);
 			let lead = match lead % 3 {
 				0 => "",
 				1 => "/sub",
 				_ => "/.",
 			};
-			format!("{lead}{}{}", "/".repeat((*slashes).max(1) as usize), &k.abs[1..])
+			format!("{lead}{}{}", "/".repeat((*slashes).max(1) as usize), file_or_dir(&k.abs[1..], *as_dir))
 		}
 		Tgt::Segs(segs, trailing) => {
 			let mut out = String::new();
@@ -551,8 +582,13 @@ fn oracle(case: &Case, obs: &mut Obs) -> Result<(), Fail> {
 		if must_404 {
 			n_outside += 1;
 		}
-		if let Tgt::Abs { outside, .. } = &r.tgt {
-			classes.insert(if *outside { "absolute->canary" } else { "absolute->inside-file" });
+		if let Tgt::Abs { outside, as_dir, .. } = &r.tgt {
+			classes.insert(match (*outside, as_dir % 3) {
+				(true, 0) => "absolute->canary",
+				(true, _) => "absolute->canary-directory",
+				(false, 0) => "absolute->inside-file",
+				(false, _) => "absolute->inside-directory",
+			});
 		}
 		let valid_uri = target.bytes().all(is_uri_byte);
 		if !valid_uri {
@@ -626,11 +662,13 @@ fn fixed_cases() -> Vec<Case> {
 		for file in [0u16, 9000, 20000, 30000, 41000, 52000, 65535] {
 			for (down, ups) in [(0u8, 1u8), (0, 2), (1, 2), (2, 3), (1, 1), (2, 1), (3, 4)] {
 				for dots in [0u8, 1, 2, 5] {
-					requests.push(Req { tgt: Tgt::Climb { down, ups, outside, file, dots, sep: dots % 3 }, pfx: 0, accept: (file % 6) as u8 });
+					requests.push(Req { tgt: Tgt::Climb { down, ups, outside, file, dots, sep: dots % 3, as_dir: (down + ups + dots) % 3 }, pfx: 0, accept: (file % 6) as u8 });
 				}
 			}
 			for slashes in 2u8..5 {
-				requests.push(Req { tgt: Tgt::Abs { outside, file, slashes, lead: slashes % 3 }, pfx: 0, accept: 0 });
+				for as_dir in 0u8..3 {
+					requests.push(Req { tgt: Tgt::Abs { outside, file, slashes, lead: (slashes + as_dir) % 3, as_dir }, pfx: 0, accept: 0 });
+				}
 			}
 			requests.push(Req { tgt: Tgt::Plain { outside, file, drop_ext: true, as_dir: 0 }, pfx: 0, accept: (file % 5) as u8 });
 			requests.push(Req { tgt: Tgt::Plain { outside, file, drop_ext: false, as_dir: 1 }, pfx: 1, accept: 2 });
@@ -649,7 +687,7 @@ fn main() {
 	let mut check = Check::from_args(
 		"C07",
 		"exploration",
-		"case = one `versatiles serve --static` process: generated tree (2-11 files over 5 directories, .br/.gz variants, index.html) served as folder or as tar (.tar/.tar.gz/.tar.br, with/without ./ and directory members), optional URL prefix in 4 syntaxes, best/fast mode, inside a sandbox with canary files above and beside the root (mirrors with the same names, sibling `<root>x`); 1-299 raw request targets per case: direct paths, climbs (`down` dirs, 1-4 `..` in 10 spellings, 3 separators) aimed at a known inside/canary file, absolute paths behind 2-4 slashes, free segment sequences over {names, ., .., empty, encoded dots, glued %2f, 255-3000 byte segments, odd bytes}, with / without / wrong prefix, 6 Accept-Encoding headers; oracle: complete HTTP response; 200 => body decoded per Content-Encoding is the content of a file inside the root; target resolving outside (file-system semantics from the root after literal prefix strip) => 404; non-trivial request = contains `..` (or an encoded spelling) and resolves to an existing inside or canary file; distinct = distinct cases containing such a request",
+		"case = one `versatiles serve --static` process: generated tree (2-11 files over 5 directories, .br/.gz variants, index.html) served as folder or as tar (.tar/.tar.gz/.tar.br, with/without ./ and directory members), optional URL prefix in 4 syntaxes, best/fast mode, inside a sandbox with canary files above and beside the root (mirrors with the same names, sibling `<root>x`); 1-299 raw request targets per case: direct paths, climbs (`down` dirs, 1-4 `..` in 10 spellings, 3 separators) aimed at a known inside/canary file, absolute paths behind 2-4 slashes (of a file, or of the directory holding it — every canary directory has an index.html — with and without trailing slash), free segment sequences over {names, ., .., empty, encoded dots, glued %2f, 255-3000 byte segments, odd bytes}, with / without / wrong prefix, 6 Accept-Encoding headers; oracle: complete HTTP response; 200 => body decoded per Content-Encoding is the content of a file inside the root; target resolving outside (file-system semantics from the root after literal prefix strip) => 404; non-trivial request = contains `..` (or an encoded spelling) and resolves to an existing inside or canary file; distinct = distinct cases containing such a request",
 	);
 	check.assume("percent-encoded segments are not decoded by the server (http::Uri::path is used verbatim): `%2e%2e` is a file name; only the leak clause applies to such targets");
 	check.assume("a target containing bytes that no URI may contain may be answered 400 by the HTTP layer (hyper) before the static handler runs; accepted in place of 404");
